@@ -84,6 +84,24 @@ def expect_line(c, ans):
     return head, str(un[1])
 
 
+def handles(rep, tier, seed, replay):
+    """the handle clause: generated gateways (as generated, and with matlab.h's isVirtual branch switched on for virtual
+    classes) driven through random wrap / unwrap / release histories; see props/c11.py"""
+    from props import c11
+    ngw, nhist, steps = (8, 12, 40) if tier == 'quick' else (40, 30, 80)
+    jobs = [('c18h/%d/%d' % (seed, i), nhist, steps, i % 4 != 3) for i in range(ngw)]
+    if replay:
+        import json
+        j = json.load(open(replay)).get('job')
+        if j:
+            jobs = [tuple(j)]
+    stale, _ = c11.drive(rep, jobs, 'C18')
+    if stale:
+        rep.known('C18-handle-after-unload: a MATLAB handle that outlives `clear mex` no longer keeps its object alive '
+                  '(_deleteAllObjects released the cell), and deleting that handle frees the cell a second time '
+                  '[witness: obj = K0(1); clear mex; delete(obj)]')
+
+
 def run(rep, tier, seed, replay=None, proof_ok=True):
     rep.coverage['rule'] = ('a driver compiled with g++ against the REAL matlab.h and the mock MEX API evaluates wrap<T> then '
                             'unwrap<T> on: all boundary values of bool/char/unsigned char/int/size_t plus random ones, 2000 '
@@ -157,6 +175,7 @@ def run(rep, tier, seed, replay=None, proof_ok=True):
         if known_nul:
             rep.known('C18-string-nul: wrap<string> goes through mxCreateString(value.c_str()): a string with an embedded NUL '
                       'byte is cut at the NUL [witness: the 3-byte string 61 00 62 comes back as 61]')
+        handles(rep, tier, seed, replay)
         rep.sample({'command': 'int -2147483648', 'array': '15 1 1 0000000080000000', 'unwrapped': -2147483648})
     finally:
         model.close()
